@@ -101,7 +101,27 @@ def run_case(case):
         subsets = [[], list(alphabet)] + [[t] for t in alphabet]
     T = r.T
     Vj = [jnp.asarray(v) for v in V]
+    # legal input: on-grid values of a continuous state given as an INTEGER array; the panel must be the same
+    int_states = [s for s in r.cont_states if np.all(r.grids[s] == np.rint(r.grids[s]))]
+    if int_states and case["subsets"] == "few":
+        init_g, _ = e1.initial_states(r, R[0], offgrid=False)
+        n_g = len(next(iter(init_g.values())))
+        pk = [(j * 5 + 1) % n_g for j in range(n)]
+        ig = {s: v[pk] for s, v in init_g.items()}
+        try:
+            fr_f = sim(params, initial_states=e1.to_jax(ig), vf_arr_list=Vj, additional_targets=alphabet)
+            fr_i = sim(params, initial_states={s: (jnp.asarray(v.astype(np.int64)) if s in int_states else jnp.asarray(v)) for s, v in ig.items()}, vf_arr_list=Vj, additional_targets=alphabet)
+            traces += 2
+            cnt += fr_f.size
+            a, b2 = fr_f.to_numpy(dtype=np.float64), fr_i[list(fr_f.columns)].to_numpy(dtype=np.float64)
+            if a.shape != b2.shape or not np.allclose(a, b2, rtol=1e-12, atol=1e-12, equal_nan=True):
+                bad = [c for c in fr_f.columns if not np.allclose(fr_f[c].to_numpy(dtype=np.float64), fr_i[c].to_numpy(dtype=np.float64), rtol=1e-12, atol=1e-12, equal_nan=True)]
+                viols.append(violation("panel", "simulate", "FRAME", f"integer-typed initial values of {int_states}: columns {bad} differ from the panel obtained with float-typed initial values"))
+        except Exception as e:
+            viols.append(violation("runs", "simulate", "EXC:" + type(e).__name__, f"integer-typed initial states: {str(e)[:300]}"))
     for targets in subsets:
+        if viols:
+            break
         tag = f"targets {targets}"
         try:
             fr = sim(params, initial_states=jinit, vf_arr_list=Vj, additional_targets=targets if targets else None)
